@@ -258,4 +258,61 @@ theorem s_roundtrip (b : ℕ) (hb : b = 16 ∨ b = 32) (x : ℤ) (hx : -(C09.S b
         refine ⟨j, by omega, ?_⟩
         rw [hn]; exact_mod_cast (le_antisymm hle l1)
 
+open C09 in
+/-- the amplitude function of C08 inverts the normalisation of C09 on every signed code -/
+theorem codeQ_s2q (b : ℕ) (hb : b = 16 ∨ b = 32) (a : ℤ) (ha : -(C09.S b) ≤ a ∧ a ≤ C09.M b) :
+    C08.codeQ b (s2q f64 b a) = a := by
+  have hE : Exact f64 b := by rcases hb with rfl | rfl; exact exact_f64_16; exact exact_f64_32
+  have hW : C08.W3 b := by rcases hb with rfl | rfl; exact Or.inr (Or.inl rfl); exact Or.inr (Or.inr rfl)
+  have rt := s_roundtrip b hb a ha
+  rw [s2fK_eq hE a ha] at rt
+  obtain ⟨r1, r2⟩ := s_range hE a ha
+  have hF : IsF64 (.fin (s2q f64 b a)) := by
+    unfold s2q; split_ifs
+    · apply isF64_rne; unfold s2q at r1 r2; simp_all [abs_le]
+    · apply isF64_rne; unfold s2q at r1 r2; simp_all [abs_le]
+  rw [C08.f2sK_eq b hW _ (by simp) hF, C08.codeQ_rank_fin] at rt
+  exact Option.some.inj rt
+
+open C09 in
+/-- **unsigned sources, codes of positive amplitude** (and the two codes 0 and 2^(b−1)): the round trip
+`UnsignedAsFloat` ∘ `FloatAsUnsigned` through float64 is exact for 16- and 32-bit codes.  (For the
+remaining codes `0 < x < 2^(b−1)` the conversion as coded is off: known finding C09.) -/
+theorem u_roundtrip_pos (b : ℕ) (hb : b = 16 ∨ b = 32) (x : ℤ) (hx : C09.S b < x ∧ x ≤ 2 * C09.S b - 1) :
+    f2uK ⟨b, false⟩ b (u2fK f64 b x) = some x := by
+  have hE : Exact f64 b := by rcases hb with rfl | rfl; exact exact_f64_16; exact exact_f64_32
+  have hW : C08.W3 b := by rcases hb with rfl | rfl; exact Or.inr (Or.inl rfl); exact Or.inr (Or.inr rfl)
+  obtain ⟨p1, e0, mp, sp, ms, hbb, h2⟩ := basics hE
+  have hxr : 0 ≤ x ∧ x ≤ 2 * C09.S b - 1 := ⟨by omega, hx.2⟩
+  have ha : -(C09.S b) ≤ x - C09.S b ∧ x - C09.S b ≤ C09.M b := by constructor <;> omega
+  have hapos : x - C09.S b > 0 := by omega
+  have hu := u2fK_eq hE x hxr
+  -- as coded, a code of positive amplitude is normalised like the signed code `x − S`
+  have hq : u2q f64 b x = s2q f64 b (x - C09.S b) := by
+    unfold u2q s2q
+    have hx0 : x > 0 := by omega
+    simp only [hx0, hapos, if_true]
+  have hpos : 0 < s2q f64 b (x - C09.S b) := by
+    have := s_strict hE (by rcases hb with rfl | rfl <;> decide) 0 (x - C09.S b) ⟨by omega, by omega⟩ ha hapos
+    rwa [(s_endpoints hE).2.1] at this
+  -- so the float is that (non-zero) rational
+  have hv : u2fK f64 b x = .fin (s2q f64 b (x - C09.S b)) := by
+    rw [hq] at hu
+    revert hu
+    cases u2fK f64 b x with
+    | nan => intro h; simp [FV.toRat?] at h
+    | inf n => intro h; simp [FV.toRat?] at h
+    | nzero => intro h; simp [FV.toRat?] at h; linarith
+    | fin q => intro h; simp [FV.toRat?] at h; rw [h]
+  obtain ⟨r1, r2⟩ := s_range hE _ ha
+  have hF : IsF64 (.fin (s2q f64 b (x - C09.S b))) := by
+    have hdef : s2q f64 b (x - C09.S b) = rne f64 (((x - C09.S b : ℤ) : ℚ) / (C09.M b : ℚ)) := by
+      unfold s2q; simp only [hapos, if_true]
+    rw [hdef]; apply isF64_rne; rw [← hdef, abs_le]; exact ⟨r1, r2⟩
+  rw [hv, C08.f2uK_eq b hW _ (by simp) hF, C08.codeQ_rank_fin, codeQ_s2q b hb _ ha]
+  congr 1
+  show x - C09.S b + C08.S b = x
+  have : C08.S b = C09.S b := rfl
+  omega
+
 end Sig.C09RT
